@@ -345,6 +345,7 @@ Qed.
 
 (* ------------------------------------------------------------------ message *)
 Variable size_limit : N.
+Variable filter_pack : byte -> bytes -> option bytes.
 
 Definition msg_rel (x y : message * list val) : Prop :=
   abs_msg (fst x) = abs_msg (fst y) /\ snd x = snd y.
@@ -357,8 +358,21 @@ Lemma abs_msg_inv m1 m2 : abs_msg m1 = abs_msg m2 ->
   m_mtype m1 = m_mtype m2 /\ m_body_codec m1 = m_body_codec m2.
 Proof. unfold abs_msg. intros H. inversion H. repeat split; assumption. Qed.
 
+Lemma pack_raw_sim m1 m2 : abs_msg m1 = abs_msg m2 ->
+  abs_msg (fst (pack_raw grow size_limit filter_pack m1)) = abs_msg (fst (pack_raw grow' size_limit filter_pack m2))
+  /\ snd (pack_raw grow size_limit filter_pack m1) = snd (pack_raw grow' size_limit filter_pack m2).
+Proof.
+  intros H. pose proof H as H0.
+  apply abs_msg_inv in H as (H1 & H2 & H3 & H4 & H5 & H6 & H7 & H8 & H9 & H10 & H11).
+  unfold pack_raw, args_query. cbv zeta. rewrite H1, H2, H3, H4, H6, H9, H10, H11.
+  destruct (Nat.ltb 255 _); [split; [exact H0|reflexivity]|].
+  destruct (marshal_body (m_body m2)); [|split; [|reflexivity]; unfold abs_msg, abs_args; cbn; unfold abs_args in H3; congruence].
+  destruct (pipe_on_pack filter_pack (vis (m_xfer_pipe m2)) _); [|split; [|reflexivity]; unfold abs_msg, abs_args; cbn; unfold abs_args in H3; congruence].
+  destruct (N.ltb size_limit _); (split; [|reflexivity]); unfold abs_msg, abs_args; cbn; unfold abs_args in H3; congruence.
+Qed.
+
 Lemma msg_step_sim m1 m2 o : abs_msg m1 = abs_msg m2 ->
-  rrel msg_rel (msg_step grow registered size_limit m1 o) (msg_step grow' registered size_limit m2 o).
+  rrel msg_rel (msg_step grow registered size_limit filter_pack m1 o) (msg_step grow' registered size_limit filter_pack m2 o).
 Proof.
   intros H. pose proof H as H0.
   apply abs_msg_inv in H as (H1 & H2 & H3 & H4 & H5 & H6 & H7 & H8 & H9 & H10 & H11).
@@ -379,6 +393,9 @@ Proof.
     + split; [exact H0|reflexivity].
     + split; [|reflexivity]. unfold abs_msg; cbn; congruence.
   - (* Reset *) split; reflexivity.
+  - (* Pack *) destruct (pack_raw_sim m1 m2 H0) as [A B].
+    destruct (pack_raw grow size_limit filter_pack m1) as [y1 f1], (pack_raw grow' size_limit filter_pack m2) as [y2 f2].
+    cbn [fst snd] in A, B. subst f2. split; [exact A|reflexivity].
   - (* Getters *) split; [exact H0|]. cbn. rewrite H0. reflexivity.
 Qed.
 
@@ -409,19 +426,19 @@ Qed.
 
 Lemma ctx_step_sim c1 c2 o : abs_ctx c1 = abs_ctx c2 ->
   (uses_start o = true -> c_start c1 = c_start c2) ->
-  rrel ctx_rel (ctx_step grow registered size_limit c1 o) (ctx_step grow' registered size_limit c2 o).
+  rrel ctx_rel (ctx_step grow registered size_limit filter_pack c1 o) (ctx_step grow' registered size_limit filter_pack c2 o).
 Proof.
   intros H Hs. pose proof H as H0.
   apply abs_ctx_inv in H as (H1 & H2 & H3 & H4 & H5 & H6 & H7 & H8 & H9 & H10 & H11).
   destruct o; cbn [ctx_step].
   - pose proof (msg_step_sim (c_input c1) (c_input c2) o H2) as S.
-    destruct (msg_step grow registered size_limit (c_input c1) o) as [[a1 o1]| |],
-             (msg_step grow' registered size_limit (c_input c2) o) as [[a2 o2]| |];
+    destruct (msg_step grow registered size_limit filter_pack (c_input c1) o) as [[a1 o1]| |],
+             (msg_step grow' registered size_limit filter_pack (c_input c2) o) as [[a2 o2]| |];
       cbn in *; try contradiction; try exact I.
     destruct S as [Sa So]. cbn in Sa, So. split; [|exact So]. unfold abs_ctx; cbn; congruence.
   - pose proof (msg_step_sim (c_output c1) (c_output c2) o H3) as S.
-    destruct (msg_step grow registered size_limit (c_output c1) o) as [[a1 o1]| |],
-             (msg_step grow' registered size_limit (c_output c2) o) as [[a2 o2]| |];
+    destruct (msg_step grow registered size_limit filter_pack (c_output c1) o) as [[a1 o1]| |],
+             (msg_step grow' registered size_limit filter_pack (c_output c2) o) as [[a2 o2]| |];
       cbn in *; try contradiction; try exact I.
     destruct S as [Sa So]. cbn in Sa, So. split; [|exact So]. unfold abs_ctx; cbn; congruence.
   - rewrite H7. destruct (c_swap c2); cbn; [|exact I].
@@ -447,8 +464,8 @@ Proof.
 Qed.
 
 Lemma msg_run_sim ops m1 m2 : abs_msg m1 = abs_msg m2 ->
-  rrel msg_rel (run (msg_step grow registered size_limit) m1 ops)
-               (run (msg_step grow' registered size_limit) m2 ops).
+  rrel msg_rel (run (msg_step grow registered size_limit filter_pack) m1 ops)
+               (run (msg_step grow' registered size_limit filter_pack) m2 ops).
 Proof.
   apply (run_sim (fun a b => abs_msg a = abs_msg b)). intros s1 s2 o H. apply msg_step_sim. exact H.
 Qed.
@@ -464,8 +481,8 @@ Fixpoint start_ok (set : bool) (ops : list cop) : bool :=
 
 Lemma ctx_run_sim ops : forall set c1 c2, abs_ctx c1 = abs_ctx c2 ->
   (set = true -> c_start c1 = c_start c2) -> start_ok set ops = true ->
-  rrel ctx_rel (run (ctx_step grow registered size_limit) c1 ops)
-               (run (ctx_step grow' registered size_limit) c2 ops).
+  rrel ctx_rel (run (ctx_step grow registered size_limit filter_pack) c1 ops)
+               (run (ctx_step grow' registered size_limit filter_pack) c2 ops).
 Proof.
   induction ops as [|o r IH]; intros set c1 c2 H Hs Hok; cbn [run].
   - cbn. split; auto.
@@ -473,8 +490,8 @@ Proof.
     { intros U. destruct o; try discriminate. cbn in Hok. apply andb_true_iff in Hok as [Hset _]. auto. }
     pose proof (ctx_step_sim c1 c2 o H Hu) as S.
     assert (Hnext : exists set', start_ok set' r = true /\
-              forall a1 o1 a2 o2, ctx_step grow registered size_limit c1 o = Ok (a1, o1) ->
-                ctx_step grow' registered size_limit c2 o = Ok (a2, o2) ->
+              forall a1 o1 a2 o2, ctx_step grow registered size_limit filter_pack c1 o = Ok (a1, o1) ->
+                ctx_step grow' registered size_limit filter_pack c2 o = Ok (a2, o2) ->
                 set' = true -> c_start a1 = c_start a2).
     { destruct o; cbn in Hok;
         try (exists set; split; [exact Hok|]; intros a1 o1 a2 o2 E1 E2 Hset; cbn in E1, E2;
@@ -488,8 +505,8 @@ Proof.
       - apply andb_true_iff in Hok as [Hset Hok]. exists set. split; [exact Hok|].
         intros a1 o1 a2 o2 E1 E2 _. cbn in E1, E2. inversion E1; inversion E2; subst; cbn; auto. }
     destruct Hnext as (set' & Hok' & Hst).
-    destruct (ctx_step grow registered size_limit c1 o) as [[a1 o1]| |],
-             (ctx_step grow' registered size_limit c2 o) as [[a2 o2]| |]; cbn in S; try contradiction; cbn; auto.
+    destruct (ctx_step grow registered size_limit filter_pack c1 o) as [[a1 o1]| |],
+             (ctx_step grow' registered size_limit filter_pack c2 o) as [[a2 o2]| |]; cbn in S; try contradiction; cbn; auto.
     destruct S as [Ha Ho]. cbn [fst snd] in *. subst o2.
     specialize (IH set' a1 a2 Ha (Hst a1 o1 a2 o1 eq_refl eq_refl) Hok').
     destruct (run _ a1 r) as [[b1 p1]| |], (run _ a2 r) as [[b2 p2]| |]; cbn in IH; try contradiction; cbn; auto.
@@ -540,21 +557,22 @@ Section Recycled.
 Variable g g' : nat -> nat -> nat -> nat.
 Variable registered : byte -> bool.
 Variable size_limit : N.
+Variable filter_pack : byte -> bytes -> option bytes.
 
 Lemma args_recycled dirty ops :
   rrel args_rel (run (args_step g) (args_reset dirty) ops) (run (args_step g') args_fresh ops).
 Proof. apply args_run_sim. apply args_reset_abs. Qed.
 
 Lemma msg_recycled dirty ops :
-  rrel msg_rel (run (msg_step g registered size_limit) (msg_reset dirty) ops)
-               (run (msg_step g' registered size_limit) msg_fresh ops).
+  rrel msg_rel (run (msg_step g registered size_limit filter_pack) (msg_reset dirty) ops)
+               (run (msg_step g' registered size_limit filter_pack) msg_fresh ops).
 Proof. apply msg_run_sim. apply msg_reset_abs. Qed.
 
 Lemma ctx_recycled dirty sess sw ops : start_ok false ops = true ->
-  rrel ctx_rel (run (ctx_step g registered size_limit) (ctx_get dirty sess sw) ops)
-               (run (ctx_step g' registered size_limit) (ctx_get ctx_new sess sw) ops).
+  rrel ctx_rel (run (ctx_step g registered size_limit filter_pack) (ctx_get dirty sess sw) ops)
+               (run (ctx_step g' registered size_limit filter_pack) (ctx_get ctx_new sess sw) ops).
 Proof.
-  intros H. apply (ctx_run_sim g g' registered size_limit ops false); [apply ctx_get_abs|discriminate|exact H].
+  intros H. apply (ctx_run_sim g g' registered size_limit filter_pack ops false); [apply ctx_get_abs|discriminate|exact H].
 Qed.
 
 Lemma bb_recycled (dirty : bbuf) n ops : forallb bop_safe ops = true ->
@@ -589,8 +607,8 @@ Qed.
 (* computing the cost before start is assigned reads the previous user's start *)
 Lemma ctx_cost_witness :
   exists dirty sess sw,
-    rmap snd (run (ctx_step g0 (fun _ => true) 1000%N) (ctx_get dirty sess sw) [CRecordCost 10%Z; CObserve])
-    <> rmap snd (run (ctx_step g0 (fun _ => true) 1000%N) (ctx_get ctx_new sess sw) [CRecordCost 10%Z; CObserve]).
+    rmap snd (run (ctx_step g0 (fun _ => true) 1000%N (fun _ d => Some d)) (ctx_get dirty sess sw) [CRecordCost 10%Z; CObserve])
+    <> rmap snd (run (ctx_step g0 (fun _ => true) 1000%N (fun _ d => Some d)) (ctx_get ctx_new sess sw) [CRecordCost 10%Z; CObserve]).
 Proof.
   exists (mkCtx None msg_fresh msg_fresh None None None None 7%Z 0%Z None None None), 1%N, [].
   vm_compute. intros H. discriminate H.
